@@ -48,4 +48,49 @@ theorem retain_touch (dr : Bool) (keep : Nat → Bool) (touch : Nat → Nat → 
   unfold retain
   simp [h.1, h.2.1, h.2.2.1, h.2.2.2]
 
+theorem retainGo_touch_gone (keep : Nat → Bool) (touch : Nat → Nat → Option (Nat × Nat)) :
+    ∀ (rs : List Elem) (k : Nat) (acc : LoopOut),
+    (retainGo keep none touch k rs acc).gone =
+      acc.gone ++ RetainIdx.filterIdx (fun i => !keep i) k (RetainIdx.updFrom (updOf touch) k rs)
+  | [], k, acc => by simp [retainGo, RetainIdx.filterIdx, RetainIdx.updFrom]
+  | e :: es, k, acc => by
+    simp only [retainGo, reduceCtorEq, ↓reduceIte]
+    cases ht : touch k k with
+    | none =>
+      have hu : updOf touch k e = e := by simp [updOf, ht]
+      by_cases hk : keep k
+      · have ih := retainGo_touch_gone keep touch es (k + 1) { acc with kept := acc.kept ++ [e], vis := acc.vis ++ [e.ids], ev := acc.ev }
+        simp [hk, RetainIdx.filterIdx, RetainIdx.updFrom, hu, ih]
+      · have ih := retainGo_touch_gone keep touch es (k + 1) { acc with gone := acc.gone ++ [e], vis := acc.vis ++ [e.ids], ev := acc.ev }
+        simp [hk, RetainIdx.filterIdx, RetainIdx.updFrom, hu, ih]
+    | some p =>
+      obtain ⟨l, id⟩ := p
+      have hu : updOf touch k e = (setLeafE l id e 0).1 := by simp [updOf, ht]
+      by_cases hk : keep k
+      · have ih := retainGo_touch_gone keep touch es (k + 1)
+          { acc with kept := acc.kept ++ [(setLeafE l id e 0).1], vis := acc.vis ++ [e.ids],
+                     ev := acc.ev ++ ({ drops := [e.ids.getD l 0] } : Ev) }
+        simp [hk, RetainIdx.filterIdx, RetainIdx.updFrom, hu] at ih ⊢
+        exact ih
+      · have ih := retainGo_touch_gone keep touch es (k + 1)
+          { acc with gone := acc.gone ++ [(setLeafE l id e 0).1], vis := acc.vis ++ [e.ids],
+                     ev := acc.ev ++ ({ drops := [e.ids.getD l 0] } : Ev) }
+        simp [hk, RetainIdx.filterIdx, RetainIdx.updFrom, hu] at ih ⊢
+        exact ih
+
+/-- the writes of the callback run no struct destructor -/
+theorem retainGo_touch_dropT (keep : Nat → Bool) (touch : Nat → Nat → Option (Nat × Nat)) :
+    ∀ (rs : List Elem) (k : Nat) (acc : LoopOut), (retainGo keep none touch k rs acc).ev.dropT = acc.ev.dropT
+  | [], k, acc => by simp [retainGo]
+  | e :: es, k, acc => by
+    simp only [retainGo, reduceCtorEq, ↓reduceIte]
+    cases ht : touch k k with
+    | none => by_cases hk : keep k <;> simp [hk, retainGo_touch_dropT keep touch es]
+    | some p =>
+      obtain ⟨l, id⟩ := p
+      have he : ∀ (a : Ev) (d : List Nat), (a ++ ({ drops := d } : Ev)).dropT = a.dropT := fun a d => by
+        show a.dropT ++ [] = a.dropT
+        simp
+      by_cases hk : keep k <;> simp [hk, retainGo_touch_dropT keep touch es, he]
+
 end Soa.Spec
